@@ -12,7 +12,7 @@ sys.path.insert(0, "/verif")
 from sa import selftest  # noqa: E402
 selftest._load_recipes()
 N = int(sys.argv[1]) if len(sys.argv) > 1 and sys.argv[1].isdigit() else 200
-props = [a for a in sys.argv[1:] if not a.isdigit()] or ["C01", "C05", "C07", "C04"]
+props = [a for a in sys.argv[1:] if not a.isdigit()] or ["C01", "C05", "C07"]
 STUB = "/verif/tools/janus_stub"
 HALF = ("events.py", "logic_detection.py", "puml_graph.py", "loop_detection/",
         "pv_to_puml/", "walk_puml_graph/")
@@ -80,7 +80,10 @@ def job(v):
         shutil.rmtree(d, ignore_errors=True)
 
 
+from concurrent.futures import as_completed
 with ThreadPoolExecutor(max_workers=14) as ex:
-    for v, res in ex.map(job, todo):
+    futs = [ex.submit(job, v) for v in todo]
+    for f in as_completed(futs):
+        v, res = f.result()
         print(f"{v.prop} {v.vid}: " + ("stale" if res is None else
               f"{res[0]} of {res[1]} outputs differ"), flush=True)
